@@ -169,7 +169,7 @@ func transitionWordBreakState(state int, r rune, b []byte, str string) (newState
 		if state < 0 {
 			return wbAny, false
 		}
-		return state, false
+		return state &^ wbZWJBit, false // WB3c requires the ZWJ to be adjacent.
 	} else if nextProperty == prExtendedPictographic && state >= 0 && state&wbZWJBit != 0 {
 		// WB3c.
 		return wbAny, false
